@@ -169,3 +169,84 @@ pub fn report(checks: Checks) -> bool {
     println!("native run: {} checks, {} wrong", checks.len(), checks.iter().filter(|c| !c.1).count());
     wrong
 }
+
+/// C07 natively: (a) the all-honest version of the batch must be accepted exactly when every member
+/// is; (b) k copies of one honest proof with final scalar b shifted by d_i (from the model, or a
+/// fixed library of correlated offsets) must be rejected unless every d_i is zero.
+pub fn c07_native<G: AffineRepr + 'static>(case: &crate::scen_c07::BatchCase, seed: u64, model: HashMap<String, String>) -> Checks {
+    use crate::r1cs::*;
+    use ark_bulletproofs::r1cs::*;
+    let mut out: Checks = vec![];
+    let k = case.instances.len();
+    let maxpad = case.instances.iter().map(|i| i.shape.padded()).max().unwrap_or(1);
+    let pc = PedersenGens::<G>::default();
+    let bp = BulletproofGens::<G>::new(maxpad, 1);
+    // (a)
+    let mut shrs = vec![];
+    let mut proofs = vec![];
+    for (i, inst) in case.instances.iter().enumerate() {
+        let shr = new_shared::<G>(&inst.shape, &Default::default(), Box::new(PlainVals::<G::ScalarField>::new(HashMap::new(), seed + i as u64)));
+        let (p, _) = prove_shape(&inst.shape, &shr, &pc, &bp, seed + i as u64);
+        match p {
+            Ok(p) => proofs.push(p),
+            Err(_) => {
+                out.push((format!("instance {} proves", i), false));
+                return out;
+            }
+        }
+        rewind_for_verifier(&shr);
+        shrs.push(shr);
+    }
+    let mut indiv = vec![];
+    for (i, inst) in case.instances.iter().enumerate() {
+        let mut vt = new_verifier_transcript(&inst.shape);
+        let v = build_verifier(&inst.shape, &shrs[i], &mut vt);
+        indiv.push(v.verify(&proofs[i], &pc, &bp).is_ok());
+        rewind_for_verifier(&shrs[i]);
+    }
+    let run_batch = |proofs: &Vec<R1CSProof<G>>, shapes: &Vec<Shape>, shrs: &Vec<std::rc::Rc<std::cell::RefCell<Shared<G>>>>| -> bool {
+        let mut ts: Vec<Transcript> = shapes.iter().map(|s| new_verifier_transcript(s)).collect();
+        let mut insts = vec![];
+        for (i, vt) in ts.iter_mut().enumerate() {
+            rewind_for_verifier(&shrs[i]);
+            insts.push((build_verifier(&shapes[i], &shrs[i], vt), &proofs[i]));
+        }
+        let mut rng = rand_chacha::ChaChaRng::seed_from_u64(seed ^ 0xa1fa);
+        batch_verify(&mut rng, insts, &pc, &bp).is_ok()
+    };
+    let shapes: Vec<Shape> = case.instances.iter().map(|i| i.shape.clone()).collect();
+    let b_ok = run_batch(&proofs, &shapes, &shrs);
+    out.push((format!("honest batch: batch verdict {} equals conjunction of individual verdicts {:?}", b_ok, indiv), b_ok == indiv.iter().all(|x| *x)));
+    // (b) correlated offsets on copies of the first member's proof
+    let mut offset_sets: Vec<Vec<G::ScalarField>> = vec![];
+    let from_model: Vec<Option<G::ScalarField>> = (0..k).map(|i| model.get(&format!("d{}", i)).and_then(|s| crate::job::parse_rational::<G::ScalarField>(s))).collect();
+    if from_model.iter().all(|x| x.is_some()) && k >= 2 {
+        offset_sets.push(from_model.into_iter().map(|x| x.unwrap()).collect());
+    }
+    let f = |x: i64| -> G::ScalarField { if x < 0 { -G::ScalarField::from((-x) as u64) } else { G::ScalarField::from(x as u64) } };
+    offset_sets.push(vec![f(5), f(-5)]);
+    offset_sets.push(vec![f(3), f(-6), f(3)]);
+    offset_sets.push(vec![f(1), f(-3), f(3), f(-1)]);
+    for ds in offset_sets {
+        if ds.iter().all(|d| d.is_zero()) {
+            continue;
+        }
+        let kk = ds.len();
+        let (pts, scs, ipp) = proofs[0].verif_parts();
+        let (l, r, a, b) = ipp.verif_parts();
+        let ps: Vec<R1CSProof<G>> = ds.iter().map(|d| R1CSProof::verif_from_parts(pts, scs, InnerProductProof::verif_from_parts(l.to_vec(), r.to_vec(), a, b + d))).collect();
+        let shapes0: Vec<Shape> = (0..kk).map(|_| shapes[0].clone()).collect();
+        let shrs0: Vec<_> = (0..kk).map(|_| shrs[0].clone()).collect();
+        // the same shared tape is replayed for every copy (same statement)
+        let mut ts: Vec<Transcript> = shapes0.iter().map(|s| new_verifier_transcript(s)).collect();
+        let mut insts = vec![];
+        for (i, vt) in ts.iter_mut().enumerate() {
+            rewind_for_verifier(&shrs0[i]);
+            insts.push((build_verifier(&shapes0[i], &shrs0[i], vt), &ps[i]));
+        }
+        let mut rng = rand_chacha::ChaChaRng::seed_from_u64(seed ^ 0xa1fa);
+        let ok = batch_verify(&mut rng, insts, &pc, &bp).is_ok();
+        out.push((format!("batch of {} copies of one proof with correlated offsets on the final scalar is rejected", kk), !ok));
+    }
+    out
+}
